@@ -700,6 +700,19 @@ func (x *Exec) store(st *State, p *Val, v *Val, pos token.Pos, in ssa.Instructio
 			}
 		}
 		x.guardCheck(st, p.FP, true, pos)
+		if tc := x.V.C.Types[typeName(p.FP.Root)]; tc != nil && len(p.FP.Path) == 1 && tc.SetOnce[p.FP.Path[0]] && !st.FreshRefs[p.FP.Base.Op] {
+			// a set-once field: the store leaves the zero value or rewrites the same value
+			oldv := st.loadPath(p.FP.Root, p.FP.Base, p.FP.Path[0], p.FP.T)
+			newv := x.toHeapVal(st, v, p.FP.T)
+			if oldv != nil && oldv.Term != nil && newv != nil && newv.Term != nil {
+				zero := IntLit(0)
+				if oldv.Term.Sort == SBool {
+					zero = False
+				}
+				k := x.site(st, "setonce:"+p.FP.Path[0])
+				x.oblige(st, "setonce", fmt.Sprintf("setonce:%s.%s-is-never-taken-back@store#%d", tc.Name, p.FP.Path[0], k), Or(Eq(oldv.Term, zero), Eq(newv.Term, oldv.Term)), pos, "setonce "+p.FP.Path[0])
+			}
+		}
 		st.storePath(p.FP.Root, p.FP.Base, strings.Join(p.FP.Path, "."), p.FP.T, x.toHeapVal(st, v, p.FP.T))
 		x.checkStrong(st, p.FP.Root, p.FP.Base, "store:"+p.FP.Path[0], pos)
 		if !st.FreshRefs[p.FP.Base.Op] && x.objInvMentions(p.FP.Root, p.FP.Path[0]) {
